@@ -525,6 +525,15 @@ impl Monitors {
         // ---- C13-B2: completion
         self.check_completion(&jobs, step, out);
 
+        // the failure limit the client asked for when it opened a job (the job appears in this step)
+        if let Some(Action::Req { req: ClientReq::Open { max_fails }, .. }) = &action {
+            let before: BTreeSet<Jid> = prev_jobs.iter().map(|j| j.id).collect();
+            let new: Vec<Jid> = jobs.iter().map(|j| j.id).filter(|j| !before.contains(j)).collect();
+            if new.len() == 1 {
+                self.job_max_fails.insert(new[0], *max_fails);
+            }
+        }
+
         // ---- C13-B3: submits (request processed in this step)
         if let Some(Action::Req {
             req: ClientReq::Submit { job, max_fails, spec, .. },
@@ -1641,7 +1650,10 @@ impl Monitors {
         for e in journal {
             if let Ev::TasksAborted(ts) = e {
                 for t in ts {
-                    let limit = job_of(jobs, t.0).and_then(|j| j.max_fails).or_else(|| job_of(prev_jobs, t.0).and_then(|j| j.max_fails));
+                    let limit = match self.job_max_fails.get(&t.0) {
+                        Some(l) if !self.restarted => *l,
+                        _ => job_of(jobs, t.0).and_then(|j| j.max_fails).or_else(|| job_of(prev_jobs, t.0).and_then(|j| j.max_fails)),
+                    };
                     let n_failed = self.job_failed.get(&t.0).copied().unwrap_or(0);
                     let over = limit.map(|k| n_failed > k).unwrap_or(false);
                     let dep_reason = self.has_bad_ancestor(*t);
@@ -1672,7 +1684,12 @@ impl Monitors {
         // M2: when a failure brings the count over the limit, nothing of the job stays unfinished
         for (j, _) in failed_now {
             let Some(nj) = job_of(jobs, j) else { continue };
-            let Some(k) = nj.max_fails else { continue };
+            // (the limit the client asked for; the server's copy only if the monitors did not see the request)
+            let asked = match self.job_max_fails.get(&j) {
+                Some(l) if !self.restarted => *l,
+                _ => nj.max_fails,
+            };
+            let Some(k) = asked else { continue };
             let n_failed = self.job_failed.get(&j).copied().unwrap_or(0);
             if n_failed > k {
                 self.count("maxfails.crossings", 1);
